@@ -798,33 +798,8 @@ func (h *harness) step(step int, op Op) error {
 		if op.O < 0 || op.O >= len(objNames) {
 			return nil
 		}
-		o := h.m.objs[op.O]
-		var v *mver
-		if vs := h.m.vers[op.O]; len(vs) > 0 {
-			v = vs[((op.X%len(vs))+len(vs))%len(vs)]
-		}
-		var name enc.Name
-		prefix := false
-		switch op.W {
-		case "obj":
-			name, prefix = o, true
-		case "metas":
-			name, prefix = append(withSlack(o, 1), metaKeyword), true
-		case "seg", "meta", "ver", "none":
-			if v == nil {
-				return nil
-			}
-			switch op.W {
-			case "seg":
-				name = segName(o, v.version, max(0, op.S)%v.nseg)
-			case "meta":
-				name = metaName(o, v.version)
-			case "ver":
-				name, prefix = verName(o, v.version), true
-			case "none":
-				name = verName(o, v.version)
-			}
-		default:
+		name, prefix, ok := rmTarget(h.m, op.O, op.W, op.X, op.S)
+		if !ok {
 			return nil
 		}
 		if err := h.store.Remove(name, prefix); err != nil {
@@ -1251,11 +1226,26 @@ func genCase(t *rapid.T) Case {
 
 const ruleC15 = "generated cases: 1..3 objects (names nested) with 1..4 versions each (explicit versions around 255/256, 65535/65536, 2^32, or clock-derived), content lengths 1, 2, 7999..8001, 15999..16001, k*8000+-1 (k <= 13, beyond the fetch window of 10), cut into 1..6 buffers incl. empty ones, producer store MemoryStore or BoltStore (temp dir); removals of single segments / metadata / versions / whole objects; one or two consumptions (object name, sometimes a versioned name); a relay schedule of <= 60 steps (deliver / drop / duplicate the i-th packet in flight, advance virtual time around the 1 s and 4 s lifetimes), optionally one packet name that never gets through; then a loss-free drain. Checked: Produce's return value; every answer of the producer against a reference store (newest version for discovery, nothing for absent packets); exactly one completion per consumption; content == published bytes of the discovered version; an error only if some requested name was sent retryBudget+1 times without Data; bytes handed out before an error are a prefix. Non-trivial: consumed object of >= 2 segments with an out-of-order delivery or a drop, or >= 2 versions published"
 
+// singleP runs the unit on one P: the cases are sequential by construction (the harness waits
+// for quiescence after every action), a second P only adds scheduler contention (Produce
+// forces a garbage collection per call) and non-determinism in the order of simultaneous timers.
+func singleP(t *testing.T) {
+	old := runtime.GOMAXPROCS(1)
+	t.Cleanup(func() { runtime.GOMAXPROCS(old) })
+}
+
 func TestC15Object(t *testing.T) {
+	singleP(t)
 	rec := evid.New("C15", "TestC15Object", ruleC15)
 	evid.Check(t, rec, genCase, execC15(t))
 }
 
-func TestC15ObjectReplay(t *testing.T) { evid.Replay(t, "TestC15Object", execC15(t)) }
+func TestC15ObjectReplay(t *testing.T) {
+	singleP(t)
+	evid.Replay(t, "TestC15Object", execC15(t))
+}
 
-func TestC15ObjectRegress(t *testing.T) { evid.Regress(t, "C15", "TestC15Object", execC15(t)) }
+func TestC15ObjectRegress(t *testing.T) {
+	singleP(t)
+	evid.Regress(t, "C15", "TestC15Object", execC15(t))
+}
